@@ -150,6 +150,21 @@ def cov_defect(H, T, tol):
     return float(np.abs(R).max() / max(1.0, np.abs(H).max())), tol
 
 
+def split_verdict(c):
+    """bin/check does not look at a model disagreement of a case that already carries an oracle failure.  Inside the
+    defect classes the model reproduces faithfully (triangular solve, periodic DFT, single-draw broadcast) the two
+    must stay separate: the correspondence case goes without verdict, the verdict goes into a bookkeeping case."""
+    if not c.impl_fail:
+        return [c]
+    m2 = dict(c.meta); m2["verdict_only"] = True
+    v = Case(expr="true", meta=m2, cell=c.cell + "/verdict", trivial=True, kind="DECISION", impl_fail=c.impl_fail, signature=c.signature)
+    c.impl_fail, c.signature = None, ""
+    return [c, v]
+
+
+FAITHFUL_CLASSES = (SIG_TRI, SIG_PER, SIG_N1)
+
+
 # ------------------------------------------------------------------------------------------------
 # Gaussian
 # ------------------------------------------------------------------------------------------------
@@ -266,7 +281,7 @@ def gaussian_cases(ctx, cases):
             iface = ["rng", "global", "N1"][(rep + n + len(form)) % 3] if n <= 10 else "rng"
             meta = {"op": "gaussian", "form": form, "shape": shp, "sparse_input": sp_in, "dim": n, "value": val, "mean": mean,
                     "mean_kind": mean_kind, "iface": iface}
-            cases.append(gaussian_case(ctx, meta, states))
+            cases.extend(split_verdict(gaussian_case(ctx, meta, states)))
     ctx.note("gaussian: repair state per triangular case (1 = code as it stands, 2 = repaired, 3 = both agree): %s" % dict(states))
 
 
@@ -403,7 +418,8 @@ def gmrf_cases(ctx, cases):
             mean = [dy(rng) for _ in range(n)] if (k % 4 != 0) else dy(rng)
             meta = {"op": "gmrf", "bc": bc, "order": order, "dim": n, "two_d": two_d, "prec": precs[k % len(precs)],
                     "mean": mean, "iface": ["rng", "global"][k % 2], "z": [dy(rng, -2, 2) for _ in range(3 * n + 8)]}
-            cases.extend(gmrf_case(ctx, meta, n1_states))
+            for c in gmrf_case(ctx, meta, n1_states):
+                cases.extend(split_verdict(c))
     # refusal: periodic boundary in 2-d
     meta = {"op": "gmrf_refuse", "bc": "periodic", "order": 1, "dim": 9, "two_d": True, "prec": 1.0, "mean": [0.0] * 9}
     cases.append(gmrf_refuse_case(ctx, meta))
@@ -767,9 +783,15 @@ def wrapper_cases(ctx, cases):
 def wrapper_case(ctx, meta):
     N = meta["N"]
     d = build_named(meta["spec"])
-    raw = np.asarray(quiet(d._sample, N, rng=np.random.RandomState(meta["seed"])), dtype=float)
-    d2 = build_named(meta["spec"])
-    w = quiet(d2.sample, N, rng=np.random.RandomState(meta["seed"]))
+    try:
+        with time_limit(30):
+            raw = np.asarray(quiet(d._sample, N, rng=np.random.RandomState(meta["seed"])), dtype=float)
+            d2 = build_named(meta["spec"])
+            w = quiet(d2.sample, N, rng=np.random.RandomState(meta["seed"]))
+    except TimeoutError as e:
+        return Case(expr="false", meta=meta, cell="wrap/%s/N=%d" % (meta["spec"][0], N), kind="DECISION",
+                    impl_fail="%s.sample(%d) does not finish (%s)" % (meta["spec"][0], N, e),
+                    signature="%s._sample|does-not-terminate" % meta["spec"][0])
     expr = "check_wrap false %s %s %s" % (cnat(N), enc_raw(raw), enc_wrapped(w))
     fail = shape_verdict(d2, w, N)
     return Case(expr=expr, meta=meta, cell="wrap/%s/N=%d" % (meta["spec"][0], N), kind="EXACT", impl_fail=fail,
@@ -835,8 +857,11 @@ def conditional_case(ctx, meta):
             w = quiet(c.sample, N, rng=np.random.RandomState(0)) if meta["rng"] else quiet(c.sample, N)
             refused, msg = False, ""
         except ValueError as e:
-            refused, msg = True, str(e)
-        results.append((bool(c.is_cond), refused, msg, None if refused else shape_verdict(c, w, N)))
+            refused, msg, w = True, str(e), None
+        except Exception as e:
+            refused, msg, w = False, "%s: %s" % (type(e).__name__, e), None
+        results.append((bool(c.is_cond), refused, msg,
+                        None if refused else (shape_verdict(c, w, N) if w is not None else "sample raised " + msg[:120])))
     if meta["rng"] is False:
         np.random.set_state(st0)
     exprs = ["check_wrap %s %s (Raw1 []) %s" % (cbool(ic), cnat(N), "WRefused" if rf else "(WArray [])") if (ic or rf) else "true"
@@ -870,6 +895,16 @@ def rng_cases(ctx, cases, sites):
 
 
 def rng_case(ctx, meta, sites=None):
+    try:
+        with time_limit(60):
+            return rng_case_(ctx, meta, sites)
+    except TimeoutError as e:
+        return Case(expr="false", meta=meta, cell="rng/%s" % meta["spec"][0], kind="DECISION",
+                    impl_fail="%s.sample(%d) does not finish (%s)" % (meta["spec"][0], meta["N"], e),
+                    signature="%s._sample|does-not-terminate" % meta["spec"][0])
+
+
+def rng_case_(ctx, meta, sites=None):
     if sites is None:
         sites, _ = tr_rngflow.extract(ctx.repo)
     spec, N = meta["spec"], meta["N"]
@@ -1004,10 +1039,10 @@ def mhn_cases(ctx, cases):
             else:
                 continue
             meta = {"op": "mhn", "a": a, "b": b, "g": g, "p": p, "u": u}
-            c = mhn_case(ctx, meta, dobj)
-            if rep == 0 and oracle:
-                c.impl_fail, c.signature = oracle
-            cases.append(c)
+            cases.append(mhn_case(ctx, meta, dobj))
+        if oracle:
+            cases.append(Case(expr="true", meta={"op": "mhn", "a": a, "b": b, "g": g, "p": q["center"], "u": 0.5, "verdict_only": True},
+                              cell="mhn/%s/verdict" % q["scheme"], trivial=True, kind="DECISION", impl_fail=oracle[0], signature=oracle[1]))
     # the public path: the parameters the sampler works with are those of the density the object reports
     for (a, b, g) in [(2.0, 3.0, 1.0), (0.5, 0.5, 0.5), (3.0, 3.0, 3.0), (1.0, 2.0, 3.0), (6.0, 3.0, -4.0)]:
         for N in (1, 2):
@@ -1260,8 +1295,10 @@ def oracle(ctx, meta):
         np.random.set_state(st)
     for c in cs:
         if c.meta.get("op") == op and c.impl_fail:
+            if c.signature in FAITHFUL_CLASSES and not meta.get("verdict_only"):
+                continue        # the model is faithful inside this class: its known failure does not explain a disagreement
             return c.impl_fail
-    if op == "mhn":
+    if op == "mhn" and meta.get("verdict_only"):
         import cuqi
         dobj = cuqi.distribution.ModifiedHalfNormal(1.0, 1.0, 1.0)
         r = mhn_acceptance_oracle(dobj, meta["a"], meta["b"], meta["g"], mhn_quantities(meta["a"], meta["b"], meta["g"]))
@@ -1293,6 +1330,20 @@ def known_witnesses(ctx):
     return out
 
 
+@contextlib.contextmanager
+def time_limit(seconds):
+    import signal
+    def handler(signum, frame):
+        raise TimeoutError("time limit of %ss exceeded" % seconds)
+    old_h = signal.signal(signal.SIGALRM, handler)
+    signal.setitimer(signal.ITIMER_REAL, seconds)
+    try:
+        yield
+    finally:
+        signal.setitimer(signal.ITIMER_REAL, 0)
+        signal.signal(signal.SIGALRM, old_h)
+
+
 def search(ctx):
     """wider search for a failing input when something broke: every witness, then large-sample moment tests of every family
     against the density the same object reports (6-sigma thresholds; search only, never the verdict of a green run)"""
@@ -1311,7 +1362,8 @@ def search(ctx):
             continue
         try:
             d = build_named(spec)
-            s = np.asarray(quiet(d.sample, Ns, rng=np.random.RandomState(11)).samples, dtype=float).reshape(d.dim, -1)
+            with time_limit(20):       # a broken rejection sampler may practically never accept
+                s = np.asarray(quiet(d.sample, Ns, rng=np.random.RandomState(11)).samples, dtype=float).reshape(d.dim, -1)
             if d.dim != 1:
                 continue
             pdf = lambda x: math.exp(float(np.ravel(d.logd(np.array([x])))[0]))
@@ -1331,6 +1383,10 @@ def search(ctx):
                 found.append(Case(expr="true", meta={"op": "moment", "spec": spec, "mean_of_draws": float(s.mean()), "mean_of_density": m1},
                                   impl_fail="%s: mean of %d draws %.5g vs mean of the reported density %.5g (%.1f sigma)" % (spec, Ns, float(s.mean()), m1, zscore),
                                   signature="%s._sample|moments" % spec[0]))
+        except TimeoutError as e:
+            found.append(Case(expr="true", meta={"op": "moment", "spec": spec},
+                              impl_fail="%s: drawing %d samples does not finish (%s): the sampler practically never accepts" % (spec, Ns, e),
+                              signature="%s._sample|does-not-terminate" % spec[0]))
         except Exception:
             continue
     return found
@@ -1346,6 +1402,20 @@ def replay(ctx, meta):
         print("nothing to re-run for this replay file (no implementation case attached)")
         return 0
     rc = 0
+    try:
+        if op in ("gaussian", "gmrf", "gmrf_n1"):
+            d = build_gaussian(m) if op == "gaussian" else build_gmrf(m)
+            n = m["dim"]
+            mm = n if op == "gaussian" else {"zero": n, "neumann": d._diff_op.shape[0], "periodic": n}[m["bc"]]
+            off, T, _ = read_affine(d, mm, 2 if m.get("bc") == "periodic" else 1, m.get("iface", "rng") if m.get("iface") != "N1" else "rng")
+            H = hessian_of_logd(d, n, center=np.zeros(n))
+            np.set_printoptions(precision=5, suppress=True, linewidth=160)
+            print("offset of the draws (scripted normals = 0):", off)
+            print("covariance of the draws T T^T (T read off with scripted unit normals):\n", T @ T.T)
+            print("(generalised) inverse of the precision = -Hessian of the object's own logd:\n", np.linalg.pinv(H, rcond=1e-6))
+            print("one draw, sample(1):", np.asarray(quiet(d.sample, 1, rng=np.random.RandomState(0))))
+    except Exception as e:
+        print("(could not print both sides: %s)" % e)
     for c in REBUILD[op](ctx, m):
         print("cell:", c.cell)
         print("oracle verdict on the current tree:", c.impl_fail or "property holds on this input")
